@@ -316,6 +316,16 @@ impl<T: Reg, const N: usize> Reg for [T; N] {
 	fn abs(&self) -> Value { Value::Array(self.iter().map(|x| x.abs()).collect()) }
 }
 
+pub trait FirstMember { type First: Reg; fn first_mut(&mut self) -> &mut Self::First; }
+fn first_gen_len<T: FirstMember, G2>(t: &mut T, g: &mut G, n: usize) -> bool where G2: Sized {
+	match <T::First as Reg>::gen_len(g, n) { Some(v) => { *t.first_mut() = v; true }, None => false }
+}
+macro_rules! first_member {
+	($(($a:ident $(, $t:ident)*))*) => {$(
+		impl<$a: Reg $(, $t: Reg)*> FirstMember for ($a, $($t,)*) { type First = $a; fn first_mut(&mut self) -> &mut $a { &mut self.0 } }
+	)*}
+}
+first_member!((A) (A, B) (A, B, C) (A, B, C, D) (A, B, C, D, E, F, H, I, J, K, L, M, N, O, P, Q, R, S));
 macro_rules! reg_tuple {
 	($(($($t:ident $i:tt),+))*) => {$(
 		impl<$($t: Reg),+> Reg for ($($t,)+) {
@@ -324,6 +334,11 @@ macro_rules! reg_tuple {
 			fn descr() -> Value { json!({"k":"tuple","ts":[$($t::descr()),+],"sz":size_of::<Self>()}) }
 			fn env(e: &mut Env) { $($t::env(e);)+ }
 			fn gen(g: &mut G) -> Self { g.nested(|g| ($($t::gen(g),)+)) }
+			fn gen_len(g: &mut G, n: usize) -> Option<Self> {
+				// the first member gets the requested length
+				let mut t = Self::gen(g);
+				match first_gen_len::<Self, ()>(&mut t, g, n) { true => Some(t), false => None }
+			}
 			fn abs(&self) -> Value { json!([$(self.$i.abs()),+]) }
 		}
 	)*}
